@@ -90,8 +90,8 @@ def run_one(D, Dz, dt, dxy, nsteps, npart, adv, inactive=False, wadv=0.0):
     cellwise = dy == "cellwise"
     if cellwise:
         dy = dx
-        if not adv:
-            return None  # the cell-wise metric matters only when the particles travel
+        if not adv or nsteps > 8:
+            return None  # the cell-wise metric matters only when the particles travel (and 50 steps of drift would leave the 40x30 grid)
     mods = {}
     mods["time"] = TimeKeeper(start=world.iso(S0), stop=world.iso(S0 + 1000 * dt), dt=dt)
     mods["state"] = st = State()
